@@ -810,13 +810,25 @@ def check(prog, run):
                 for tok in r_.replace("(", " ").replace(")", " ").replace(",", " ").split():
                     if tok.startswith("state:"):
                         all_reads.add(tok[len("state:"):])
+    # ... or that another method of the muxer branches on / returns (the keyframe heuristic of the convenience path reads the frame count)
+    members = {x_ for g_ in groups for x_ in g_}
+    for p_, b_ in cx.live.items():
+        if p_ in members or b_.get("kind") == "Closure" or not b_.get("impl_self", "").startswith("api::Muxer") or b_["argc"] < 1:
+            continue
+        exprs_ = [sym.expr(b_, blk_["term"]["discr"]) for blk_ in b_["blocks"] if blk_["term"]["k"] == "switch" and not blk_.get("cleanup")]
+        if b_["locals"][0]["ty"] in ("bool", "u8", "u16", "u32", "u64", "usize"):
+            exprs_.append(sym.expr_local(b_, 0))
+        for e_ in exprs_:
+            for y_ in sym.walk(e_):
+                if isinstance(y_, tuple) and len(y_) > 1 and y_[0] == "load" and str(y_[1]).startswith("arg1.") and str(y_[1]).count(".") >= 1:
+                    all_reads.add(str(y_[1]).split(".")[1])
     for g_ in groups:
         stored = {o_: {p_[0] for (r_, p_) in cx.st.sum.get(o_, ()) if r_ == ("arg", 1) and p_} for o_ in g_}
         anyone = set().union(*stored.values()) if stored else set()
         for f_ in sorted(anyone & all_reads):
             for o_ in g_:
                 run.check(f_ in stored[o_], "R4", "%s maintains %s (judged elsewhere)" % (mir.norm(o_), f_), "stored on success",
-                          "`%s` is read by a rejection guard of a frame-writing entry point and maintained by %s, but %s (same queue) never stores it: after frames written through %s the other calls are judged against stale state" %
+                          "`%s` is read by a rejection guard of a frame-writing entry point or decides a branch / result of another method of the muxer, and is maintained by %s, but %s (same queue) never stores it: after frames written through %s the other calls are judged against stale state" %
                           (f_, ", ".join(mir.norm(x_).split("::")[-1] for x_ in g_ if f_ in stored[x_]), mir.norm(o_), mir.norm(o_).split("::")[-1]), mir.loc_of(u.bodies[o_]))
     r5(cx, run)
     run.rule("R11", "a first keyframe carrying its parameter sets is accepted wherever they stand in the frame: the extractors find them for every header byte of any other unit before or after them (C07.R13 instances)")
